@@ -122,7 +122,7 @@ def run(chk) -> None:
     quick = chk.tier == "quick"
     drive.preload()
     selftest_table()
-    chk.rule = ("rule sets = directory rules for src, src/app (and tests in the thorough tier), each absent or with "
+    chk.rule = ("rule sets = directory rules for the root '/' (3 options), src, src/app (and tests in the thorough tier), each absent or with "
                 "allow in {absent, [], [py], [md], [py, md]} and deny in {absent, [test_], [md]}, x global_deny x "
                 "global_patterns allow/deny, enumerated exhaustively by TLC; every rule set judged on all 15 paths of "
                 "the tree (incl. the near-miss directory src_old); plus invalid-regex configurations; non-trivial = "
